@@ -146,7 +146,47 @@ def file_level_tie(chk: core.Check, rng, cases, thorough) -> int:
                 break
     if diffs:
         chk.obligation_broken("correspondence", "Model/RawFile.lean (file bytes -> records) vs pybes3.open_raw(...).arrays(...)", str(diffs[:2]))
-    return len(todo)
+    # concatenate(files): several small files (one of them not a raw file) through Model/RawConcat.lean and pybes3.concatenate_raw
+    small = [(bl, sel, rf.enc_file(bl, name=name, tag=tag)) for bl, sel, name, tag in cases if len(rf.enc_file(bl, name=name, tag=tag)) <= 1800]
+    groups = []
+    for _ in range(40 if thorough else 8):
+        if len(small) < 3:
+            break
+        pick = [small[int(i)] for i in rng.sample(range(len(small)), rng.choice([1, 2, 3]))]
+        sel = pick[0][1]
+        datas = [d for _, _, d in pick]
+        if rng.random() < 0.5:
+            datas.insert(rng.randrange(len(datas) + 1), b"\x01\x02\x03\x04 not a raw file")
+        groups.append((pick, sel, datas, rng.choice([1, 2, 1000])))
+    if groups:
+        text = "".join(f"C {native.sel_mask(sel)} {pb} - " + " ".join(d.hex() for d in datas) + "\n" for _, sel, datas, pb in groups)
+        try:
+            out = core.lean_run("Driver/RawFile.lean", text, timeout=1200)
+        except core.DriverError as ex:
+            chk.obligation_broken("correspondence", "RawFile driver (concatenate)", str(ex))
+            return len(todo)
+        cdiffs = []
+        for (pick, sel, datas, pb), line in zip(groups, out):
+            paths = [rc.write_tmp(d) for d in datas]
+            try:
+                with rc.NativeBackedReader():
+                    arr = pybes3.concatenate_raw(paths, n_block_per_batch=pb, sub_detectors=sel, decode_reid=False)
+                got = rc.expected_to_columns(rc.ak_to_records(arr, sel), sel)
+            finally:
+                for q in paths:
+                    os.unlink(q)
+            exp = rc.expected_to_columns(rf.expected([e for bl, _, _ in pick for b in bl for e in b], sel), sel)
+            chk.count(1, key=f"concat-{len(datas)}-{pb}-{line[:40]}")
+            chk.hist("file_tie_mutation", "concatenate")
+            if not rc.same_columns(got, exp):
+                chk.failing_input("pybes3.concatenate_raw(files, decode_reid=False) [native C++]", {"files_hex": [d.hex() for d in datas], "n_block_per_batch": pb, "sub_detectors": sel},
+                                  str(got)[:1200], str(exp)[:1200], "concatenating files returns the same events in the same order")
+                break
+            if not line.startswith("OK ") or not rc.same_columns(rc.canon_model(json.loads(line.split(" ", 2)[2])), got):
+                cdiffs.append({"files": len(datas), "model": line[:200]})
+        if cdiffs:
+            chk.obligation_broken("correspondence", "Model/RawConcat.lean vs pybes3.concatenate_raw", str(cdiffs[:2]))
+    return len(todo) + len(groups)
 
 
 def main(chk: core.Check) -> int:
